@@ -337,6 +337,11 @@ PROVENANCE = [
     ("append:number-base", "liblzma", "lzma_index_append", "index.c", "number_base",
      [("index_stream", "record_count")], [("lzma_index_s", "record_count")],
      "Block numbers restart in every Stream: a new Record group starts at the *Stream's* Record count + 1"),
+    ("list:totals-compressed", "xz", "update_totals", "list.c", "compressed_size",
+     [("call", "lzma_index_file_size")], [("call", "lzma_index_stream_size"), ("call", "lzma_index_total_size")],
+     "the totals line sums whole files: Stream Padding and every Stream of a file count (lzma_index_file_size)"),
+    ("list:totals-uncompressed", "xz", "update_totals", "list.c", "uncompressed_size",
+     [("call", "lzma_index_uncompressed_size")], [], "sum of the files' uncompressed sizes"),
     ("list:check-offset", "xz", "parse_check_value", "list.c", "offset",
      [(None, "compressed_file_offset"), (None, "total_size")], [(None, "unpadded_size")],
      "the Check field ends where the Block ends (Block Padding included): offset = file offset + total_size - check size"),
@@ -363,6 +368,8 @@ def check_provenance(ck, prog, prog_xz):
             raise AnalysisBroken("%s: no definition of %s" % (fn, name))
 
         def has(r_, rec, fld):
+            if rec == "call":
+                return any(c.get("fn") == fld for c in ex.calls(r_, into_refs=True))
             return any(x.get("k") == "mem" and x["f"] == fld and (rec is None or (x.get("rec") or "").startswith(rec))
                        for x in ex.walk(r_))
         ok = all(any(has(r_, rc, fl) for r_ in rhs) for (rc, fl) in need) and \
@@ -370,7 +377,7 @@ def check_provenance(ck, prog, prog_xz):
         ck.ob("C13-PROV", oid, ok, common.where(f), "%s: %s = %s (%s)" % (fn, name, " / ".join(ex.show(r_) for r_ in rhs), why)
               if ok else "%s(): %s is computed as `%s`: %s" % (fn, name, " / ".join(ex.show(r_) for r_ in rhs), why),
               key="PROV:" + oid)
-    ck.floor("C13-PROV", 2)
+    ck.floor("C13-PROV", 4)
 
 
 def check_seek_state(ck, prog):
@@ -424,5 +431,10 @@ def run(ck):
     check_iter(ck, prog)
     check_seek(ck, prog)
     check_seek_state(ck, prog)
+    from . import reinit
+    ck.rule("C13-APPLY", "an amount measured in this call (padding found, bytes used) is applied to the persistent "
+                         "member it updates on every way out that the caller continues from")
+    reinit.check_local_applied(ck, prog, "C13-APPLY", files={"file_info.c", "index_decoder.c", "index_hash.c"})
+    ck.floor("C13-APPLY", 4)
     prog_xz = common.program(ck, ("xz",), files=("/list.c",))
     check_provenance(ck, prog, prog_xz)
